@@ -39,6 +39,9 @@ def run(rep, tier):
     rep.rule("R9.6", "extendProjection: the loop visits every tracked root j = 0 .. size_update-1 and appends the correction vector built from (q.col(j), lambda(j), res.col(j)) "
                      "exactly when root j has not converged, in consecutive new columns; the space grows by the number of unconverged roots "
                      "(necessary for 'diagonally dominant matrices converge': a tracked root that never gets a correction stagnates)")
+    rep.rule("R9.7", "the cached product AV stays A*V: Ritz vectors are q = V U and residues AV U - q diag(lambda) in both Ritz routines; a restart transforms AV by the same "
+                     "matrix M as the retained search vectors (V' = V M, or q.leftCols(r) with M = U.leftCols(r)); necessary for 'Success implies residual below tolerance', "
+                     "because every later convergence test reads residues computed from AV")
     rep.rule("R9.5", "option tables: literals accepted by set_tolerance / set_correction / set_size_update equal the choices of the gwbse option description; every enumerator of CORR/UPDATE/MATRIX_TYPE is handled")
     host = os.path.join(front.VERIF, "hosts", "xtp_davidson.cc")
     units = [host, front.repo("xtp/src/libxtp/davidsonsolver.cc")]
@@ -279,6 +282,7 @@ def run(rep, tier):
                 rep.check(labels == names or has_default, "R9.5", "switch|%s|%s#%d" % (en, f.qname.split("::")[-1], n_sw), "every %s enumerator handled" % en,
                           "%s: switch over %s handles %s of %s" % (f.qname, en, sorted(labels), sorted(names)), f.loc(sw))
     check_extend(rep, F)
+    check_av_invariant(rep, F)
     rep.assumptions += ["that returned values are the lowest eigenvalues, orthonormality, residual bounds, convergence for diagonally dominant "
                         "matrices and the Hamiltonian mode are numerical properties: not decided (most of the property)"]
 
@@ -356,3 +360,93 @@ def check_extend(rep, F):
             base = first
             why = "the search space is resized to %s while columns are written from %s on" % (gv, base)
     rep.check(ok, "R9.6", "corrections", "one correction per unconverged tracked root, every tracked root visited", "DavidsonSolver::extendProjection: " + why, f.loc(), sample=True)
+
+
+def check_av_invariant(rep, F):
+    import sympy as sp
+    from vsa.alg import guard_strs, F as Fn
+    from vsa.cases import executes
+    OPQ = r"Eigen::Matrix<|RitzEigenPair|ProjectedSpace"
+    # Ritz vectors and residues
+    n_r = 0
+    for fn in ("getRitz", "getHarmonicRitz"):
+        for f in F.find(D + fn):
+            if f.j["template"] == "pattern":
+                continue
+            rep.analysed(f)
+            fo = Fold(f, opaque_types=OPQ).run()
+            pn = [p_["name"] for p_ in f.j["params"] if "ProjectedSpace" in (p_.get("type") or "")]
+            q = [e for e in fo.events if e["kind"] == "store" and e["target"].endswith(".q")]
+            r = [e for e in fo.events if e["kind"] == "store" and e["target"].endswith(".res")]
+            ok = len(pn) == 1 and len(q) == 1 and len(r) == 1
+            if ok:
+                P = pn[0]
+                rp_ = q[0]["target"][:-2]
+                ok = sp.simplify(q[0]["value"] - S(P + ".V") * S(rp_ + ".U")) == 0 and \
+                    sp.simplify(r[0]["value"] - (S(P + ".AV") * S(rp_ + ".U") - S(rp_ + ".q") * Fn("asDiagonal")(S(rp_ + ".lambda")))) == 0
+            n_r += 1
+            rep.check(ok, "R9.7", "ritz|" + fn, "q = V U, res = AV U - q diag(lambda)", "DavidsonSolver::%s computes q = %s and res = %s" % (
+                fn, [str(e["value"])[:80] for e in q], [str(e["value"])[:120] for e in r]), f.loc(), sample=(fn == "getRitz"))
+    rep.floor("R9.7", n_r, 2, "Ritz routines")
+    # the product itself: AV = A V at the first iteration, afterwards only the new columns are appended as A times the new search vectors
+    ups = [f_ for f_ in F.funcs if f_.qname == D + "updateProjection"]
+    if not ups:
+        rep.broken("R9.7", "DavidsonSolver::updateProjection not found")
+    else:
+        up = ups[0]
+        rep.analysed(up)
+        fu = Fold(up, opaque_types=OPQ).run()
+        cu = getattr(fu, "conds", {})
+        An, Pn = [p_["name"] for p_ in up.j["params"][:2]]
+        Am, AVu, Vu = S(An), S(Pn + ".AV"), S(Pn + ".V")
+
+        def o0(lf):
+            if isinstance(lf, tuple) and len(lf) == 3 and lf[0] in ("==", "!=") and "i_iter_" in (str(lf[1]), str(lf[2])) and 0 in lf[1:]:
+                return ("FIRST", lf[0] == "==")
+            return None
+        avs = [e for e in fu.events if e["kind"] == "store" and (e["target"] == Pn + ".AV" or e["target"].startswith(Pn + ".AV."))]
+        for first in (True, False):
+            live = [e for e in avs if executes(e, None, {"FIRST": first}, o0, cu)]
+            ok = len(live) == 1
+            if ok and first:
+                ok = live[0]["target"] == Pn + ".AV" and sp.simplify(live[0]["value"] - Am * Vu) == 0
+            elif ok:
+                nv = Fn("cols")(Vu) - Fn("cols")(AVu)
+                ok = live[0]["target"].startswith(Pn + ".AV.rightCols(") and live[0].get("idx") and sp.simplify(live[0]["idx"][0] - nv) == 0 and \
+                    sp.simplify(live[0]["value"] - Am * Fn("rightCols")(Vu, nv)) == 0
+            rep.check(ok, "R9.7", "product|%s" % ("first" if first else "extend"), "AV = A V (first iteration) / the new columns of AV are A times the new columns of V",
+                      "DavidsonSolver::updateProjection (%s): AV is updated by %s" % ("first iteration" if first else "later iterations", [(e["target"], str(e["value"])[:100]) for e in live]), up.loc())
+    # restart
+    f = F.one(D + "restart")
+    rep.analysed(f)
+    fo = Fold(f, opaque_types=OPQ).run()
+    conds = getattr(fo, "conds", {})
+    rp_, pp_ = [p_["name"] for p_ in f.j["params"][:2]]
+    AV, V, U, Q = S(pp_ + ".AV"), S(pp_ + ".V"), S(rp_ + ".U"), S(rp_ + ".q")
+
+    def orc(lf):
+        if isinstance(lf, tuple) and len(lf) == 3 and lf[0] in ("==", "!=") and "matrix_type_" in (str(lf[1]), str(lf[2])):
+            other = str(lf[2]) if str(lf[1]) == "matrix_type_" else str(lf[1])
+            return ("SYMM", (lf[0] == "==") == other.endswith("SYMM"))
+        return None
+    stores = [e for e in fo.events if e["kind"] == "store"]
+    for symm in (True, False):
+        A = {"SYMM": symm}
+        live = [e for e in stores if executes(e, None, A, orc, conds)]
+        und = [e for e in stores if executes(e, None, A, orc, conds) is None]
+        av = [e for e in live if e["target"] == pp_ + ".AV"]
+        keep = [e for e in live if re.search(r"\.leftCols\(", e["target"]) and not e["target"].startswith(pp_ + ".")]
+        ok, why = not und and len(av) == 1 and len(keep) == 1, "expected one update of AV and one assignment of the retained search vectors, found %d / %d" % (len(av), len(keep))
+        if ok:
+            M = sp.simplify(av[0]["value"] / AV)
+            ok, why = not M.has(AV) and M != 1, "AV becomes %s, which is not the old AV times a transformation matrix" % str(av[0]["value"])[:160]
+        if ok:
+            vv = keep[0]["value"]
+            # V' = (leading block of) V times M, or the Ritz vectors q.leftCols(r) when M = U.leftCols(r)
+            by_v = any(sp.simplify(vv - b_ * M) == 0 for b_ in [V] + [a_ for a_ in sp.preorder_traversal(vv) if str(getattr(a_, "func", "")) == "leftCols" and a_.args and a_.args[0] == V])
+            by_q = str(getattr(vv, "func", "")) == "leftCols" and vv.args[0] == Q and str(getattr(M, "func", "")) == "leftCols" and M.args[0] == U and M.args[1:] == vv.args[1:]
+            ok = by_v or by_q
+            why = "the retained search vectors become %s while AV is multiplied by %s: AV is no longer A*V after the restart, so later residues (and the convergence test) are computed from a wrong product" % (
+                str(vv)[:120], str(M)[:120])
+        rep.check(ok, "R9.7", "restart|%s" % ("SYMM" if symm else "HAM"), "restart transforms AV and the retained vectors by the same matrix", "DavidsonSolver::restart (%s): %s" % ("SYMM" if symm else "HAM", why),
+                  f.loc(av[0]["node"]) if av else f.loc(), sample=True)
